@@ -119,7 +119,8 @@ class P(Prop):
         (M, "TV.C14.call_current_values", "a conversion called on heap objects returns the pure conversion of the values point and base(s) hold in the world of the call; same-class conversions return a copy"),
         (M, "TV.C14.update_then_convert", "base object updated in place, then used again: the conversion is about the updated base"),
         (M, "TV.C14.alias_base_is_origin", "b.toENUCoords(b) with the same object as point and base is (0,0,0) (GeoCoords or ECEFCoords)"),
-        (M, "TV.C14.track_heap_simulation", "heap-level Track.toENU/toGeo/toECEF/toProj (getSRID, default base, per-position dispatch, rebinding, Track.base) simulate the pure Track model of T8/T9, errors included"),
+        (M, "TV.C14.track_heap_simulation", "heap-level Track.toENU/toGeo/toECEF/toProj/toENUIfNeeded (getSRID, default base, per-position dispatch, rebinding, Track.base) simulate the pure Track model of T8/T9, errors included"),
+        (M, "TV.C14.track_enu_if_needed", "Track.toENUCoordsIfNeeded on a Geo track is toENUCoords() with the first observation as base; any other track is left alone"),
         (M, "TV.C14.track_enu_rebinds_fresh", "after Track.toENUCoords the positions and Track.base are new objects (the recorded base is a copy, never the caller's object); older objects untouched"),
         (M, "TV.C14.track_round_trip_survives_update", "Geo track -> ENU(b) -> caller updates any older object (b included) -> toGeoCoords(): succeeds, positions are their Geo->ECEF->Geo images, Track.base is b as it was"),
     ]
@@ -145,7 +146,7 @@ class P(Prop):
                 "mutable objects: GeoCoords/ENUCoords/ECEFCoords instances with setX/setY/setZ and attribute assignment, the dynamic "
                 "dispatch obj.to{ECEF,ENU,Geo,Proj}Coords(*args) with its TypeError/AttributeError/exit branches, copy semantics of "
                 "same-class conversions, Track(obs, base=...) sharing its position and base objects, Track.getSRID() (class of the first "
-                "position), Track.to*Coords rebinding positions and Track.base to new objects. Not modelled: _projFromUTM, "
+                "position), Track.to*Coords and Track.toENUCoordsIfNeeded rebinding positions and Track.base to new objects. Not modelled: _projFromUTM, "
                 "the STANDARD_PROJ == 2 stereographic test branch, the state a raising whole-track conversion leaves behind, plotting.")
     trusted = ["libm sin cos tan atan atan2 sqrt log exp pow: parameters of the model (structure Trig); the driver uses Lean's Float "
                "functions (same system libm as CPython: outputs were bit-identical on every case explored), the theorems use "
